@@ -256,14 +256,23 @@ def ellipseToCenter (x1 y1 rx ry phi : Float) (large sweep : Bool) (x2 y2 : Floa
 
 def copysign (x s : Float) : Float := if signbit s then -(x.abs) else x.abs
 
+/-- EllipsePos (path_util.go:8) -/
+def ellipsePosArc (rx ry phi cx cy theta : Float) : Pt Float :=
+  let st := Float.sin theta
+  let ct := Float.cos theta
+  let sp := Float.sin phi
+  let cp := Float.cos phi
+  ⟨cx + rx * ct * cp - ry * st * sp, cy + rx * ct * sp + ry * st * cp⟩
+
 /-- the loop of the circular branch: `some (n, points)`; `none` when rx ≠ ry (cubic route) -/
 def flattenCircle (start : Pt Float) (rx ry phi : Float) (large sweep : Bool) (e : Pt Float) (tol : Float) :
     Option (List (Pt Float)) :=
-  if !GenF.Equal rx ry then none else
-    let r := rx
+  -- f749928: every arc is flattened as the image of the circle with its major radius
+    let circle := GenF.Equal rx ry
+    let r := goMax rx ry
     let (cx, cy, theta0, theta1) := ellipseToCenter start.x start.y rx ry phi large sweep e.x e.y
-    let theta0 := theta0 + phi
-    let theta1 := theta1 + phi
+    let theta0 := if circle then theta0 + phi else theta0
+    let theta1 := if circle then theta1 + phi else theta1
     let dtheta := Float.abs (theta1 - theta0)
     let thetaEnd := Float.acos ((r - tol) / r)
     let thetaMid := Float.acos ((r - tol) / (r + tol))
@@ -271,6 +280,7 @@ def flattenCircle (start : Pt Float) (rx ry phi : Float) (large sweep : Bool) (e
     let ratio := dtheta / (thetaEnd * 2.0 + thetaMid * 2.0 * n)
     let thetaEnd := thetaEnd * ratio
     let thetaMid := thetaMid * ratio
+    let scale := (r + ratio * tol) / r
     let r := r + ratio * tol
     -- int(n): NaN / negative give no iterations
     let cnt : Nat := if n.isNaN || n < 1.0 then 0 else n.toUInt64.toNat
@@ -280,7 +290,8 @@ def flattenCircle (start : Pt Float) (rx ry phi : Float) (large sweep : Bool) (e
       | 0 => rev
       | k + 1 =>
         let t := theta0 + copysign theta (theta1 - theta0)
-        let pos : Pt Float := ⟨r * Float.cos t + cx, r * Float.sin t + cy⟩
+        let pos : Pt Float := if circle then ⟨r * Float.cos t + cx, r * Float.sin t + cy⟩
+          else ellipsePosArc (rx * scale) (ry * scale) phi cx cy t
         go k (theta + 2.0 * thetaMid) (lineTo rev pos)
     some ((lineTo (go cnt (thetaEnd + thetaMid) [start]) e).reverse)
 
@@ -375,6 +386,9 @@ def xmonoCubic (c : Cub Float) : List (Pt Float) :=
   let a := -c.p0.x + 3.0 * c.p1.x - 3.0 * c.p2.x + c.p3.x
   let b := 2.0 * c.p0.x - 4.0 * c.p1.x + 2.0 * c.p2.x
   let cc := -c.p0.x + c.p1.x
+  -- 2a055fa: coefficients divided by their largest magnitude before the solver's absolute tests
+  let m := goMax (Float.abs a) (goMax (Float.abs b) (Float.abs cc))
+  let (a, b, cc) := if 0.0 < m then (a / m, b / m, cc / m) else (a, b, cc)
   let (t1, t2) := solveQuadraticFormula a b cc
   let first := !t1.isNaN && GenF.IntervalExclusive t1 0.0 1.0
   let (out1, cur) := if first then
@@ -450,7 +464,7 @@ def handle : List String → Option String
     match ← floats args with
     | [x1, y1, rx, ry, phi, x2, y2, tol, sc] =>
       match flattenCircle ⟨x1, y1⟩ rx ry phi (large == "1") (sweep == "1") ⟨x2, y2⟩ tol with
-      | none => pure "NOTCIRCLE"
+      | none => pure "TOO-MANY"
       | some ps => pure (answerScaled (some ps) sc)
     | _ => none
   | "AC" :: large :: sweep :: args => do
